@@ -39,6 +39,9 @@ import (
 	"go.uber.org/zap"
 	"verif/harness/lib/ev"
 	"verif/harness/lib/hist"
+	"verif/harness/lib/kvx"
+
+	pb "github.com/pingcap/kvproto/pkg/replication_modepb"
 )
 
 // judgeTopologyProgress turns the exploratory "stalled after a merge" observation into a violation.
@@ -77,18 +80,33 @@ func runHistory(r *ev.Run, opts *config.PersistOptions, idx int, hseed int64) *w
 	return w
 }
 
-// concurrentPhase runs ticks, configuration updates, status reads and region reports at the same
-// time (as in a server: Run loop, config API, store and region heartbeats). Verdicts: the race
-// detector (mechanism functions), and the sequence of successfully saved states, which is totally
-// ordered because every switch saves under the manager's lock: a saved "sync" must directly follow a
-// saved "sync_recover" whose id every region had started to report integrity under before that save.
+// concurrentPhase runs every entry point a server has at the same time on one long-lived manager:
+// the background tick, one or two configuration API callers, member wait-time updates, status
+// readers (store heartbeats / HTTP), store heartbeats that change store status, and region reports.
+// Every second round additionally fails storage writes (fail-before or lost-ack), replicater offers
+// and id allocations at random inside those races.
+// Verdicts: the race detector (mechanism functions); the sequence of successful state writes, which
+// is totally ordered because every switch writes under the manager's lock (a written "sync" must
+// directly follow a written "sync_recover" whose id every region had begun to report integrity under
+// before that write); every pair a reader sees has a successful write before the read returned and
+// reader-observed ids never go back; at quiescence the served pair is the last successfully written.
 func concurrentPhase(r *ev.Run, opts *config.PersistOptions, seed int64) {
-	rounds := r.Pick(12, 30)
+	rounds := r.Pick(18, 36)
+	variants := []string{"replicas", "label-key", "mode"}
 	for k := 0; k < rounds; k++ {
 		rng := rand.New(rand.NewSource(seed + int64(k)))
 		n := []int{10, 300, 64}[k%3]
-		variant := []string{"replicas", "label-key", "mode"}[(k/3)%3]
-		p := params{Hist: -1 - k, HSeed: seed + int64(k), N: n, Ticks: 0, TP: 2, TD: 1, AsyncWait: "0", StartMode: modeDR}
+		variant := variants[(k/3)%3]
+		second := ""
+		if k%4 >= 2 {
+			second = variants[(k/3+1+k%2)%3]
+		}
+		faults := k%2 == 1
+		wait := "0"
+		if k%3 == 2 {
+			wait = "1h" // the tick then walks the member wait-time table that the admin API writes
+		}
+		p := params{Hist: -1 - k, HSeed: seed + int64(k), N: n, Ticks: 0, TP: 2, TD: 1, AsyncWait: wait, StartMode: modeDR}
 		w := newWorld(r, p, rng, opts)
 		if !w.setup() {
 			w.close()
@@ -98,13 +116,24 @@ func concurrentPhase(r *ev.Run, opts *config.PersistOptions, seed int64) {
 		var stop int32
 		base := w.cfg
 		ticks := 400
-		wg.Add(4)
+		name := variant
+		if second != "" {
+			name += "||" + second
+		}
+		if wait == "1h" {
+			name += "/wait=1h"
+		}
+		if faults {
+			name += "+faults"
+			var nw int64
+			mode := []kvx.FaultMode{kvx.FailBefore, kvx.LostAck}[(k/2)%2]
+			w.kv.FailAllWrites(mode, func(kind, key string) bool { return atomic.AddInt64(&nw, 1)%3 == 0 })
+			atomic.StoreInt64(&w.cl.allocFailEvery, 7)
+		}
+		wg.Add(1)
 		go func() { // the background job
 			defer wg.Done()
 			for i := 0; i < ticks; i++ {
-				if i%7 == 0 {
-					w.applyFailure([]string{"dr", "up", "up", "partial"}[rng.Intn(4)])
-				}
 				w.m.VerifTickDR()
 				if i%3 == 0 {
 					time.Sleep(30 * time.Microsecond)
@@ -112,9 +141,9 @@ func concurrentPhase(r *ev.Run, opts *config.PersistOptions, seed int64) {
 			}
 			atomic.StoreInt32(&stop, 1)
 		}()
-		go func() { // the configuration API
+		updater := func(variant string, useed int64) {
 			defer wg.Done()
-			lr := rand.New(rand.NewSource(seed*31 + int64(k)))
+			lr := rand.New(rand.NewSource(useed))
 			cur := base
 			for i := 0; atomic.LoadInt32(&stop) == 0; i++ {
 				c := cur
@@ -143,21 +172,67 @@ func concurrentPhase(r *ev.Run, opts *config.PersistOptions, seed int64) {
 					time.Sleep(time.Duration(100+lr.Intn(400)) * time.Microsecond)
 				}
 			}
-		}()
-		go func() { // store heartbeats / HTTP status
+		}
+		wg.Add(1)
+		go updater(variant, seed*31+int64(k))
+		if second != "" {
+			wg.Add(1)
+			go updater(second, seed*37+int64(k))
+		}
+		wg.Add(1)
+		go func() { // store heartbeats: stores of both datacenters fail and recover while ticks run
 			defer wg.Done()
-			for atomic.LoadInt32(&stop) == 0 {
-				w.m.GetReplicationStatus()
-				w.m.GetReplicationStatusHTTP()
-				r.Count("concurrent_status_reads", 1)
-				time.Sleep(20 * time.Microsecond)
+			for i := 0; atomic.LoadInt32(&stop) == 0; i++ {
+				w.applyFailure([]string{"dr", "up", "up", "partial", "edge"}[rng.Intn(5)])
+				r.Count("concurrent_store_status_changes", 1)
+				time.Sleep(time.Duration(50+rng.Intn(300)) * time.Microsecond)
 			}
 		}()
+		wg.Add(1)
+		go func() { // member sync (admin API) and, in fault rounds, a replicater that comes and goes
+			defer wg.Done()
+			for i := 0; atomic.LoadInt32(&stop) == 0; i++ {
+				w.m.UpdateMemberWaitAsyncTime(uint64(1 + i%3))
+				if faults {
+					w.rep.setFail(i%3 == 0)
+				}
+				r.Count("concurrent_member_wait_updates", 1)
+				time.Sleep(80 * time.Microsecond)
+			}
+		}()
+		// status readers (store heartbeat responses / HTTP)
+		readers := make([][]readerObs, 2)
+		for ri := range readers {
+			ri := ri
+			wg.Add(1)
+			go func() {
+				defer wg.Done()
+				var lastP pair
+				first := true
+				for atomic.LoadInt32(&stop) == 0 {
+					cl := hist.Tick()
+					st := w.m.GetReplicationStatus()
+					rt := hist.Tick()
+					pp := pair{Mode: modeMaj}
+					if st.GetMode() == pb.ReplicationMode_DR_AUTO_SYNC {
+						pp = pair{Mode: modeDR, State: lower(st.GetDrAutoSync().GetState()), ID: st.GetDrAutoSync().GetStateId()}
+					}
+					if first || pp != lastP {
+						readers[ri] = append(readers[ri], readerObs{P: pp, Call: cl, Ret: rt})
+						lastP, first = pp, false
+					}
+					w.m.GetReplicationStatusHTTP()
+					r.Count("concurrent_status_reads", 1)
+					time.Sleep(15 * time.Microsecond)
+				}
+			}()
+		}
 		// region heartbeats: every region echoes the state id it is told (integrity unless async)
 		began := make([]map[uint64]int64, len(w.regs)) // region -> state id -> tick at which its first integrity report began
 		for i := range began {
 			began[i] = map[uint64]int64{}
 		}
+		wg.Add(1)
 		go func() {
 			defer wg.Done()
 			var told uint64
@@ -185,8 +260,12 @@ func concurrentPhase(r *ev.Run, opts *config.PersistOptions, seed int64) {
 			}
 		}()
 		wg.Wait()
-		w.m.UpdateConfig(base)
-		// the saved sequence
+		injected := w.kv.Injected()
+		w.kv.ResetFaults()
+		w.rep.setFail(false)
+		atomic.StoreInt64(&w.cl.allocFailEvery, 0)
+		r.Count("concurrent_storage_faults_injected", injected)
+		// the sequence of successful writes
 		saves := savesOf(w.kv.Log())
 		var seq []saveEv
 		for _, sv := range saves {
@@ -194,23 +273,42 @@ func concurrentPhase(r *ev.Run, opts *config.PersistOptions, seed int64) {
 				seq = append(seq, sv)
 			}
 		}
-		for i := 1; i < len(seq); i++ {
+		around := func(i int) []saveEv {
+			lo := i - 6
+			if lo < 0 {
+				lo = 0
+			}
+			return seq[lo : i+1]
+		}
+		base0 := map[string]interface{}{"round": k, "regions": n, "concurrent": name,
+			"note": "ticks, UpdateConfig, member wait updates, status reads, store status changes and region reports ran concurrently on one manager; sequences are in the order of successful SaveReplicationStatus calls"}
+		witWith := func(extra map[string]interface{}) map[string]interface{} {
+			out := map[string]interface{}{}
+			for kk, v := range base0 {
+				out[kk] = v
+			}
+			for kk, v := range extra {
+				out[kk] = v
+			}
+			return out
+		}
+		seenID := map[uint64]string{}
+		for i := range seq {
+			if old, ok := seenID[seq[i].P.ID]; ok {
+				r.Violation("state-id-reused:concurrent", fmt.Sprintf("state id %d was written for %q and again for %q", seq[i].P.ID, old, seq[i].P.State), witWith(map[string]interface{}{"saved_sequence_around": around(i)}))
+			}
+			seenID[seq[i].P.ID] = seq[i].P.State
+			if i == 0 {
+				continue
+			}
 			r.Count("concurrent_saved_"+seq[i-1].P.State+">"+seq[i].P.State, 1)
 			if seq[i].P.State != stSync {
 				continue
 			}
 			prev := seq[i-1].P
-			lo := i - 6
-			if lo < 0 {
-				lo = 0
-			}
-			wit := func() map[string]interface{} {
-				return map[string]interface{}{"round": k, "regions": n, "config_goroutine": variant, "saved_sequence_around": seq[lo : i+1],
-					"note": "ticks, UpdateConfig, status reads and region reports ran concurrently; the sequence is the order of successful SaveReplicationStatus calls"}
-			}
 			if prev.State != stRecover {
 				r.Violation("sync-not-allowed:concurrent-config-update",
-					fmt.Sprintf("with UpdateConfig (%s) running concurrently with ticks, sync#%d was saved directly after %v: sync declared although no region can have reported under that id", variant, seq[i].P.ID, prev), wit())
+					fmt.Sprintf("with UpdateConfig (%s) running concurrently with ticks, sync#%d was saved directly after %v: sync declared although no region can have reported under that id", name, seq[i].P.ID, prev), witWith(map[string]interface{}{"saved_sequence_around": around(i)}))
 				continue
 			}
 			missing := 0
@@ -221,18 +319,48 @@ func concurrentPhase(r *ev.Run, opts *config.PersistOptions, seed int64) {
 			}
 			if missing > 0 {
 				r.Violation("sync-not-allowed:concurrent-config-update",
-					fmt.Sprintf("sync#%d was saved after %v although %d of %d regions had not reported integrity under id %d", seq[i].P.ID, prev, missing, n, prev.ID), wit())
+					fmt.Sprintf("sync#%d was saved after %v although %d of %d regions had not reported integrity under id %d", seq[i].P.ID, prev, missing, n, prev.ID), witWith(map[string]interface{}{"saved_sequence_around": around(i)}))
 			} else {
 				r.Count("concurrent_sync_judged_ok", 1)
 			}
 		}
+		// readers
+		for ri, obs := range readers {
+			var maxSeen uint64
+			for _, o := range obs {
+				r.Count("concurrent_reader_observations", 1)
+				if !o.P.dr() {
+					continue
+				}
+				// observations are recorded on change only, and every change of what is served in
+				// dr-auto-sync mode (including re-entering the mode) carries a newer id
+				if o.P.ID <= maxSeen {
+					r.Violation("state-id-reused:reader-saw-older-id-again", fmt.Sprintf("reader %d saw %v after it had seen state id %d and something else in between", ri, o.P, maxSeen), witWith(map[string]interface{}{"reader": obs}))
+				}
+				maxSeen = o.P.ID
+				ok := false
+				for _, sv := range seq {
+					if sv.P == o.P && sv.Seq < o.Ret {
+						ok = true
+					}
+				}
+				if !ok {
+					r.Violation("served-before-persisted:concurrent", fmt.Sprintf("reader %d saw %v, for which no successful storage write had completed", ri, o.P), witWith(map[string]interface{}{"reader": obs, "writes": saves}))
+				}
+			}
+		}
+		// quiescence
 		served, _ := w.observe()
-		if loaded, ok := w.load(); served.dr() && (!ok || loaded != served) {
-			r.Violation("served-not-persisted:concurrent-ticks-and-config", fmt.Sprintf("after concurrent ticks and config updates %v is served but storage holds %v", served, loaded), w.witness(nil))
+		if served.dr() && len(seq) > 0 && served != seq[len(seq)-1].P {
+			r.Violation("served-not-persisted:concurrent-ticks-and-config", fmt.Sprintf("after the concurrent round (%s) %v is served but the last successful write is %v", name, served, seq[len(seq)-1].P), witWith(map[string]interface{}{"saved_sequence_around": around(len(seq) - 1)}))
+		}
+		if loaded, ok := w.load(); served.dr() && injected == 0 && (!ok || loaded != served) {
+			r.Violation("served-not-persisted:concurrent-ticks-and-config", fmt.Sprintf("after concurrent ticks and config updates %v is served but storage holds %v", served, loaded), witWith(nil))
 		}
 		r.Count("concurrent_rounds", 1)
+		r.Count("concurrent_rounds_"+name, 1)
 		r.Count("concurrent_ticks", int64(ticks))
-		r.Distinct(fmt.Sprintf("concurrent|%s|%d|%d", variant, n, len(seq)))
+		r.Distinct(fmt.Sprintf("concurrent|%s|%d|%d", name, n, len(seq)))
 		r.Eval(1)
 		w.close()
 	}
@@ -378,6 +506,7 @@ func main() {
 		for i, v := range []string{"label-key", "mode-bounce", "label-key", "mode-bounce"} {
 			gatedConfigDuringScan(r, opts, v, []int{3, 3, 1100, 1100}[i], master.Int63())
 		}
+		gatedGrid(r, opts, master.Int63())
 		concurrentPhase(r, opts, master.Int63())
 	}
 	r.Floor(int64(r.Pick(10000, 30000)))
